@@ -1,3 +1,153 @@
 package corpus
 
-func writeTie(s *Shared, dir string, all []*Pkg, obs []*FileRun, starts map[*File]map[int]bool) {}
+import (
+	"fmt"
+	"os"
+	"path/filepath"
+	"sort"
+	"strings"
+
+	"verifharness/internal/coqfmt"
+)
+
+// ModelledCheckers are the checkers transliterated in coq/theories/Model_Checkers.v (run_by_name).
+var ModelledCheckers = []string{"appendAssign", "appendCombine", "badRegexp", "dupOption", "evalOrder", "filepathJoin", "flagName",
+	"newDeref", "rangeAppendAll", "regexpPattern", "regexpSimplify", "sortSlice", "typeDefFirst"}
+
+// subject-bearing modelled checkers whose warnings carry a recognition verdict (C20 tie)
+var modelledSubject = []string{"appendAssign", "appendCombine", "filepathJoin", "flagName", "newDeref", "rangeAppendAll", "sortSlice"}
+
+const tieHeader = "From GC Require Import Base GoAst Model_Checkers.\nOpen Scope string_scope.\nOpen Scope N_scope.\n\n"
+
+func obsTerm(o ModelObs) string {
+	if o.Panic {
+		return "None"
+	}
+	items := make([]string, len(o.Offs))
+	for i, n := range o.Offs {
+		items[i] = fmt.Sprint(n + 1)
+	}
+	return "(Some [" + strings.Join(items, ";") + "])"
+}
+
+type tieCase struct {
+	desc  string
+	term  string // Coq term of type list (string * obs) describing the disagreement (empty = agreement)
+	nodes int
+}
+
+func writeShards(dir, prefix string, cases []tieCase, perShard int) []string {
+	var files []string
+	var cur []tieCase
+	n := 0
+	flush := func() {
+		if len(cur) == 0 {
+			return
+		}
+		name := fmt.Sprintf("%s_%d", prefix, len(files)/2)
+		var b strings.Builder
+		b.WriteString(tieHeader)
+		var idx []string
+		for i, c := range cur {
+			fmt.Fprintf(&b, "Definition r%d := Eval vm_compute in (%s).\n", i, c.term)
+			idx = append(idx, c.desc)
+		}
+		b.WriteString("Definition RES := [")
+		for i := range cur {
+			if i > 0 {
+				b.WriteString("; ")
+			}
+			fmt.Fprintf(&b, "r%d", i)
+		}
+		b.WriteString("].\nDefinition M := Eval vm_compute in mismatches (fun d : list (string * obs) => match d with [] => true | _ => false end) RES.\nPrint M.\n")
+		if os.Getenv("VERIF_TIE_DEBUG") != "" {
+			b.WriteString("Print RES.\n")
+		}
+		os.WriteFile(filepath.Join(dir, name+".v"), []byte(b.String()), 0o644)
+		os.WriteFile(filepath.Join(dir, name+".index.txt"), []byte(strings.Join(idx, "\n")+"\n"), 0o644)
+		files = append(files, name+".v", name+".index.txt")
+		cur, n = nil, 0
+	}
+	for _, c := range cases {
+		cur = append(cur, c)
+		n += c.nodes
+		if n >= perShard {
+			flush()
+		}
+	}
+	flush()
+	return files
+}
+
+// writeTie converts files to model terms and writes the cases files of the three properties:
+//   C01: S2 + S3 files, outcome {ok, panic} and warning offsets of every modelled checker
+//   C07: S1 files, the same comparison (wf includes: every node position is a scanner token start)
+//   C20: namesake stress packages, additionally the offsets at which the model says "namesake" vs the Go oracle
+func writeTie(s *Shared, dir string, all []*Pkg, obs []*FileRun, starts map[*File]map[int]bool) {
+	byKey := map[string]*FileRun{}
+	for _, o := range obs {
+		byKey[o.Pkg+"/"+o.File] = o
+	}
+	var c01, c07, c20 []tieCase
+	nodesTotal := 0
+	panics := 0
+	warnTotal := 0
+	for _, p := range all {
+		for _, f := range p.Files {
+			if p.Focus != "" && f.Name != p.Focus {
+				continue
+			}
+			run := byKey[p.Name+"/"+f.Name]
+			if run == nil {
+				continue
+			}
+			term, n := ConvertFile(p, f, SortedStarts(starts[f]))
+			nodesTotal += n
+			var items []string
+			names := append([]string{}, ModelledCheckers...)
+			sort.Strings(names)
+			for _, name := range names {
+				o, ok := run.Outcomes[name]
+				if !ok {
+					continue
+				}
+				if o.Panic {
+					panics++
+				}
+				warnTotal += len(o.Offs)
+				items = append(items, fmt.Sprintf("(%s, %s)", coqfmt.Str(name), obsTerm(o)))
+			}
+			tc := tieCase{desc: p.Name + "/" + f.Name + " " + p.Origin, nodes: n,
+				term: fmt.Sprintf("case_detail\n %s\n [%s]", term, strings.Join(items, "; "))}
+			switch p.Stream {
+			case "S1":
+				c07 = append(c07, tc)
+			default:
+				c01 = append(c01, tc)
+			}
+			if p.Stream == "S2" && strings.HasPrefix(p.Name, "S2/ns_") {
+				var its []string
+				for _, name := range modelledSubject {
+					offs := run.Namesake[name]
+					strs := make([]string, len(offs))
+					for i, o := range offs {
+						strs[i] = fmt.Sprint(o + 1)
+					}
+					if _, ok := run.Outcomes[name]; ok && !run.Outcomes[name].Panic {
+						its = append(its, fmt.Sprintf("(%s, [%s])", coqfmt.Str(name), strings.Join(strs, ";")))
+					}
+				}
+				c20 = append(c20, tieCase{desc: p.Name + "/" + f.Name, nodes: n,
+					term: fmt.Sprintf("namesake_detail\n %s\n [%s]", term, strings.Join(its, "; "))})
+			}
+		}
+	}
+	s.CaseFiles["C01"] = writeShards(dir, "cases_c01", c01, 5000)
+	s.CaseFiles["C07"] = writeShards(dir, "cases_c07", c07, 9000)
+	s.CaseFiles["C20"] = writeShards(dir, "cases_c20", c20, 3000)
+	s.TieStats["converted_files"] = map[string]int{"C01": len(c01), "C07": len(c07), "C20": len(c20)}
+	s.TieStats["converted_nodes"] = nodesTotal
+	s.TieStats["observed_panics_of_modelled_checkers"] = panics
+	s.TieStats["observed_warnings_of_modelled_checkers"] = warnTotal
+	s.TieStats["modelled_checkers"] = ModelledCheckers
+}
